@@ -1,4 +1,4 @@
-use crate::CompileError;
+use crate::{CommandCompiler, CompileError};
 use ariadne::{Label, Report, ReportKind};
 use zydeco_session::{AnalysisError, ProgramAnalysis, SourceCaches, SourceGraph};
 use zydeco_statics::{TyckObservation, fmt as static_fmt, syntax as ss};
@@ -9,11 +9,11 @@ use zydeco_utils::span::PathDisplay;
 pub struct DiagnosticRenderer;
 
 impl DiagnosticRenderer {
-    pub fn error(error: &CompileError) {
+    pub fn error(compiler: &CommandCompiler, error: &CompileError) {
         match error {
             | CompileError::Rejected(analysis) => {
                 Self::warnings(analysis);
-                Self::observations(analysis);
+                Self::observations(compiler, analysis);
                 if let Some(reports) = analysis.outcome().reports() {
                     reports.reports.iter().for_each(|report| {
                         let _ = report.eprint(SourceCaches::analysis(analysis));
@@ -46,7 +46,18 @@ impl DiagnosticRenderer {
         });
     }
 
-    pub fn observations(analysis: &ProgramAnalysis) {
+    pub fn observations(compiler: &CommandCompiler, analysis: &ProgramAnalysis) {
+        if analysis.observations().is_empty() {
+            return;
+        }
+        // Typed nodes live in the payload tables, which `analysis.statics()` does not retain.
+        let statics = match compiler.materialize_arena(analysis) {
+            | Ok(statics) => statics,
+            | Err(error) => {
+                eprintln!("{error}");
+                return;
+            }
+        };
         if analysis
             .observations()
             .iter()
@@ -69,10 +80,7 @@ impl DiagnosticRenderer {
                 let solution = solution.map_or_else(
                     || "???".to_owned(),
                     |solution| {
-                        solution.ugly(&static_fmt::Formatter::new(
-                            analysis.scoped(),
-                            analysis.statics(),
-                        ))
+                        solution.ugly(&static_fmt::Formatter::new(analysis.scoped(), &statics))
                     },
                 );
                 println!("{site_text} @ {span} : {solution}");
@@ -80,7 +88,7 @@ impl DiagnosticRenderer {
             | TyckObservation::Debug { metadata, result } => {
                 print!("[debug printing] ");
                 metadata.arguments().iter().for_each(|argument| print!("{argument}"));
-                let formatter = static_fmt::Formatter::new(analysis.scoped(), analysis.statics());
+                let formatter = static_fmt::Formatter::new(analysis.scoped(), &statics);
                 match result {
                     | ss::TermAnnId::Hole(fill) => println!(" (hole): {}", fill.concise()),
                     | ss::TermAnnId::Kind(kind) => {
